@@ -280,7 +280,7 @@ def library_s2i(tier, scope, kind="poly"):
     return {"type": "s2i", "kind": "lib", "tag": kind + "_" + scope, "via": "events",
             "trace": {"spec": "Trace_Library", "cfg": "Trace_Library_" + scope,
                       "min_tally": {"scalar": [5000, 0, 0, 0], "derive": [500, 0, 0, 0], "integrate": [500, 0, 100, 0], "combine": [500, 0, 0, 500]}.get(scope, [0, 3000 if scope == "eval" else 500, 0, 0])},
-            "mc": {"module": "MC_Library", "constants": {"N": 2, "Depth": q(tier, 3, 4), "Kind": '"%s"' % kind}, "workers": q(tier, 4, 8), "heap": "12g",
+            "mc": {"module": "MC_Library", "constants": {"N": 2, "Depth": q(tier, 3, 4), "Kind": '"%s"' % kind}, "workers": q(tier, 4, 8), "heap": q(tier, "4g", "12g"),
                    "tag": kind + "_" + scope, "timeout": 3400}}
 
 
